@@ -210,6 +210,48 @@ sys.exit(1 if bad else 0)
         chk.inconclusive_note('concrete facts script failed: %s' % out[-300:])
 
 
+def table_facts(chk):
+    """finite facts about the data, exhaustive: every row of both single-event tables has one cell per age column, cells are missing (null) only
+    before the event's first tabulated age, and every other cell is a number in (0, 1.5] - so the symbolic runs, which take the cells
+    as given, are not vacuous on a malformed row.  One record per bad cell (matched against the known findings one by one)"""
+    script = r'''
+import sys, athlib
+bad = []
+for year, ag in ((2015, athlib.ag2015), (2023, athlib.ag2023)):
+    data = ag.get_data(); ages = data['ages']
+    for g in 'mf':
+        for row in data[g]:
+            cols = row[3:]
+            if len(cols) != len(ages):
+                bad.append('%s %s %s row has %d factor cells for %d ages' % (year, g, row[0], len(cols), len(ages)))
+            seen = False
+            for a, f in zip(ages, cols):
+                if f is None:
+                    if seen: bad.append('%s %s %s age %s: missing factor after the first tabulated age' % (year, g, row[0], a))
+                    continue
+                seen = True
+                if isinstance(f, bool) or not isinstance(f, (int, float)) or not (0 < f <= 1.5):
+                    bad.append('%s %s %s age %s: factor %r is not a number in (0, 1.5]' % (year, g, row[0], a, f))
+print('\n'.join(bad))
+sys.exit(1 if bad else 0)
+'''
+    code, out = plain().run_script(script)
+    chk.obligations += 1
+    if code == 0:
+        chk.discharged += 1
+        chk.trivial += 1
+    elif code == 1:
+        lines = [l for l in out.strip().splitlines() if l.strip()]
+        allknown = True
+        for l in lines[:60]:
+            one = script.replace("print('\\n'.join(bad))", "bad = [b for b in bad if b == %r]\nprint('\\n'.join(bad))" % l)
+            chk.report({'label': 'table-cell', 'func': 'wma single-event tables', 'kind': 'table-cell', 'args_text': l,
+                        'expected': 'one positive factor per age column from the first tabulated age on', 'observed': l, 'script': one})
+        chk.discharged += 1 if not chk.violations else 0
+    else:
+        chk.inconclusive_note('table facts script failed: %s' % out[-300:])
+
+
 def run(chk, only=None):
     import random
     athlib = hc.load_athlib()
@@ -241,7 +283,7 @@ def run(chk, only=None):
                 if not quick or rng.random() < 0.4:
                     jobs.append(('spelling', year, g, ev, max(lo, 47.5), row[2]))
     if only:
-        jobs = [j for j in jobs if j[0] == only]
+        jobs = [j for j in jobs if j[0] == only or only in repr(j)]
     chk.functions = ['athlib.wma.agegrader.AgeGrader.calculate_factor / find_age / find_row_by_event / world_best / calculate_age_grade / normalize_gender / event_code_to_kind',
                      'athlib.wma_age_factor / wma_world_best / wma_age_grade / wma_athlon_age_factor (concrete facts)']
     chk.stubs = ['doubles as reals with monotone rounding R (error bound 2**-53, integers exact); a / b with symbolic b: uninterpreted DIVF with sign and monotonicity facts',
@@ -254,6 +296,7 @@ def run(chk, only=None):
                    'performances given as h:mm:ss text (parse_hms is C06)']
     if not only:
         concrete_facts(chk)
+        table_facts(chk)
     print('C14: %d jobs' % len(jobs), flush=True)
     pool.run_jobs(chk, worker, jobs, chunksize=2, progress=100)
     chk.extra['functions_loaded_through_hook'] = hc.functions_loaded()
